@@ -143,6 +143,12 @@ def _sources(draw, min_class=1, max_size=20, allow_empty=False, big=True):
         n, m = draw(st.integers(lo, max_size)), draw(st.integers(lo, max_size))
     else:
         n, m = draw(st.integers(90, 130)), draw(st.integers(90, 130))
+        if allow_empty and draw(st.integers(0, 3)) == 0:
+            # a class without scored samples next to a class beyond the dynamic switch
+            if draw(st.booleans()):
+                n = 0
+            else:
+                m = 0
     distinct = draw(st.booleans()) or kind == "big"
     if distinct:
         ks = draw(st.permutations(list(range(n + m)))) if n + m <= 40 else None
@@ -172,7 +178,8 @@ def _sources(draw, min_class=1, max_size=20, allow_empty=False, big=True):
 def _wf_cases(draw):
     method = draw(st.sampled_from(METHODS))
     cfg = dict(method=method, strat=draw(st.sampled_from(STRATS)))
-    src = draw(_sources(allow_empty=(method == "replacement")))
+    # (an empty class: replacement sampling, and "dynamic", which is documented to mean replacement then)
+    src = draw(_sources(allow_empty=(method in ("replacement", "dynamic"))))
     if method == "proportion":
         cfg["ratio"] = draw(st.one_of(st.sampled_from([0.1, 0.5, 0.9, 0.3333]),
                                       st.floats(min_value=0.01, max_value=0.99)))
@@ -214,6 +221,17 @@ def _check_wellformed(case, switch):
         b = s.bootstrap_sample(config)
         check_sample(src, cfg, b, s, ctx, switch=switch)
     require(np.array_equal(s.pos, p0) and np.array_equal(s.neg, n0), "boot:source-mutated", "")
+    # the same object asked again with smoothing switched the other way: what "dynamic" resolves to is decided per
+    # call, so the draw equals the draw of a fresh equal object under the same seed
+    if cfg["method"] == "dynamic" and n and m and src.get("dtype") != "bool":
+        toggled = _config(dict(cfg, smoothing=not cfg.get("smoothing", False)))
+        np.random.seed((case["seed"] + 1) % 2**32)
+        a = s.bootstrap_sample(toggled)
+        np.random.seed((case["seed"] + 1) % 2**32)
+        b = _source(src).bootstrap_sample(toggled)
+        require(a == b, "boot:history-dependent",
+                f"cfg={cfg} seed={case['seed']} n={n} m={m}: after sampling with smoothing={cfg.get('smoothing', False)}, a "
+                f"sample with smoothing={not cfg.get('smoothing', False)} differs from the one a fresh equal object gives")
     # dynamic = the documented choice, under the same seed
     if cfg["method"] == "dynamic" and n != switch and m != switch and n and m:
         from score_analysis import BootstrapConfig
